@@ -757,3 +757,93 @@ Proof.
   unfold run. generalize (WINV_world0 ns). generalize (world0 ns). induction es as [|e es IH]; intros w H F; cbn [fold_left]; [exact H|].
   inversion F; subst. apply IH; [apply WINV_step; assumption | assumption].
 Qed.
+
+(* ---- from "a function of the state" to the ground truth ---- *)
+(* a broker's own entries reflect its local client subscriptions *)
+Definition OWN (b : broker) : Prop :=
+  (forall k, k_peer k = bk_name b -> (status (bk_state b) k = true <-> In (k_ssid k, k_conn k) (bk_local b)))
+  /\ (forall s conn, In (s, conn) (bk_local b) -> s < kbase /\ conn < kbase).
+
+(* once the observer's view of p's entries has converged to p's own (what C04 gives when gossip has
+   quiesced), the observer forwards a channel to member p exactly when p has a live local
+   subscriber for it *)
+Theorem converged_routing_is_the_truth (b bp : broker) cnt :
+  INV b -> OWN bp -> bk_name bp <> bk_name b ->
+  member_get (bk_members b) (bk_name bp) = Some cnt ->
+  (forall k, k_peer k = bk_name bp -> status (bk_state b) k = status (bk_state bp) k) ->
+  forall s, In (s, bk_name bp) (bk_remote b) <-> exists conn, In (s, conn) (bk_local bp).
+Proof.
+  intros Hi [Ho Hb] Hn G Conv s. rewrite (routes_by_state b (bk_name bp) cnt Hi Hn G s). split.
+  - intros (k & K1 & K2 & K3). rewrite (Conv k K1) in K3. apply (Ho k K1) in K3. rewrite K2 in K3. exists (k_conn k). exact K3.
+  - intros (conn & Hin).
+    assert (exists k, k_peer k = bk_name bp /\ k_ssid k = s /\ In (k_ssid k, k_conn k) (bk_local bp)) as (k & K1 & K2 & K3).
+    { destruct (Hb s conn Hin) as [Bs Bc]. destruct (key_parts (bk_name bp) conn s Bc Bs) as (P1 & P2 & P3).
+      exists (mk_key (bk_name bp) conn s). rewrite P1, P2, P3. auto. }
+    exists k. split; [exact K1|]. split; [exact K2|]. rewrite (Conv k K1). apply (Ho k K1). exact K3.
+Qed.
+
+(* OWN is kept by the broker's own client operations (the clock is ahead of what the state holds;
+   a connection subscribes only what it does not hold) ... *)
+Definition clock_ahead (st : replica) (t : Z) : Prop := forall k, (e_add (fetch st k) < t)%Z /\ (e_del (fetch st k) < t)%Z.
+
+Lemma own_key_eq name k conn ssid : conn < kbase -> ssid < kbase -> k_peer k = name ->
+  (k_ssid k, k_conn k) = (ssid, conn) -> k = mk_key name conn ssid.
+Proof.
+  intros Hc Hs Hp E. inversion E as [[E1 E2]]. destruct (key_decompose k) as (Ek & _ & _). rewrite Hp, E1, E2 in Ek.
+  rewrite E1, E2. exact Ek.
+Qed.
+
+Lemma OWN_local_sub (b : broker) conn ssid (t : Z) :
+  conn < kbase -> ssid < kbase -> (0 < t)%Z -> clock_ahead (bk_state b) t -> OWN b -> OWN (fst (local_sub b conn ssid t)).
+Proof.
+  intros Hc Hs Ht Hclk [Ho Hb]. unfold local_sub. cbn [fst]. split; cbn [bk_name bk_state bk_local].
+  - intros k Hk. destruct (key_parts (bk_name b) conn ssid Hc Hs) as (P1 & P2 & P3).
+    unfold lww_add. destruct (Hclk (mk_key (bk_name b) conn ssid)) as [Ca Cd].
+    destruct (e_add (fetch (bk_state b) (mk_key (bk_name b) conn ssid)) <? t)%Z eqn:E; [|apply Z.ltb_ge in E; lia].
+    rewrite in_set_add. destruct (N.eq_dec (mk_key (bk_name b) conn ssid) k) as [<-|Nk].
+    + rewrite P2, P3. unfold status. rewrite fetch_insert. destruct (decide _) as [_|X]; [|contradiction].
+      unfold is_added. cbn. destruct (t =? 0)%Z eqn:Z0; [apply Z.eqb_eq in Z0; lia|]. cbn.
+      split; [intros _; right; reflexivity | intros _; apply Z.leb_le; lia].
+    + rewrite status_insert_other by exact Nk. rewrite (Ho k Hk). split; [auto|]. intros [H|H]; [exact H|].
+      exfalso. apply Nk. symmetry. apply own_key_eq; assumption.
+  - intros s c H. apply in_set_add in H. destruct H as [H|H]; [apply (Hb s c H) | inversion H; subst; auto].
+Qed.
+
+Lemma OWN_local_unsub (b : broker) conn ssid (t : Z) :
+  conn < kbase -> ssid < kbase -> (0 < t)%Z -> clock_ahead (bk_state b) t -> nonneg (bk_state b) ->
+  OWN b -> OWN (fst (local_unsub b conn ssid t)).
+Proof.
+  intros Hc Hs Ht Hclk Hnn [Ho Hb]. unfold local_unsub. cbn [fst]. split; cbn [bk_name bk_state bk_local].
+  - intros k Hk. destruct (key_parts (bk_name b) conn ssid Hc Hs) as (P1 & P2 & P3).
+    unfold lww_del. destruct (Hclk (mk_key (bk_name b) conn ssid)) as [Ca Cd].
+    destruct (e_del (fetch (bk_state b) (mk_key (bk_name b) conn ssid)) <? t)%Z eqn:E; [|apply Z.ltb_ge in E; lia].
+    rewrite in_set_del. destruct (N.eq_dec (mk_key (bk_name b) conn ssid) k) as [<-|Nk].
+    + rewrite P2, P3. unfold status. rewrite fetch_insert. destruct (decide _) as [_|X]; [|contradiction].
+      unfold is_added. cbn. split; [|intros [_ H]; exfalso; apply H; reflexivity].
+      intros H. apply andb_prop in H. destruct H as [_ H]. apply Z.leb_le in H. lia.
+    + rewrite status_insert_other by exact Nk. rewrite (Ho k Hk). split; [|intros [H _]; exact H]. intros H. split; [exact H|].
+      intros E2. apply Nk. symmetry. apply own_key_eq; assumption.
+  - intros s c H. apply in_set_del in H. destruct H as [H _]. apply (Hb s c H).
+Qed.
+
+(* ... and by merging any payload that says nothing newer about the broker's own entries (only the
+   broker itself writes them) *)
+Lemma merge_entry_effect_local st0 acc k : bk_local (fst (merge_entry_effect st0 acc k)) = bk_local (fst acc).
+Proof.
+  destruct acc as [b fresh]. unfold merge_entry_effect. destruct (k_peer k =? bk_name b); [reflexivity|].
+  destruct (member_get (bk_members b) (k_peer k)) as [c0|] eqn:G.
+  - destruct (existsb (N.eqb (k_peer k)) fresh); [reflexivity|].
+    destruct (if negb (is_added (fetch st0 k)) && is_added (fetch (bk_state b) k) then cnt_inc c0 (k_ssid k) else (c0, false)) as [c1 first].
+    destruct (if is_added (fetch st0 k) && negb (is_added (fetch (bk_state b) k)) then cnt_dec c1 (k_ssid k) else (c1, false)) as [c2 last]. reflexivity.
+  - cbn [fst]. unfold find_peer. rewrite G.
+    destruct (fold_left (fun acc0 k0 => count_key acc0 (k_peer k) k0) (subs_of (bk_state b) (k_peer k)) ([], bk_remote b)). reflexivity.
+Qed.
+
+Lemma swarm_merge_local (b : broker) payload : bk_local (fst (swarm_merge b payload)) = bk_local b.
+Proof.
+  unfold swarm_merge. destruct (state_merge (bk_state b) payload) as [st' [delta|]]; cbn [fst]; [|reflexivity].
+  set (b0 := BK (bk_name b) st' (bk_members b) (bk_remote b) (bk_local b)).
+  assert (forall (l : list (N * entry)) (acc : broker * list N), bk_local (fst (fold_left (fun acc ke => merge_entry_effect (bk_state b) acc (fst ke)) l acc)) = bk_local (fst acc)) as F.
+  { induction l as [|x l IH]; intros acc; cbn [fold_left]; [reflexivity|]. rewrite IH. apply merge_entry_effect_local. }
+  rewrite F. reflexivity.
+Qed.
